@@ -61,6 +61,12 @@ def real_pairs(residues, model):
     """('ok', [(i, j, lw)], missing) from the real code, indices into `residues`"""
     from rnapolis.annotator import find_pairs
     s = G.structure(residues)
+    if model is not None:
+        # the same Structure3D object is first asked for every OTHER model it holds (what is returned for `model`
+        # must not depend on earlier calls with another argument)
+        for other in dict.fromkeys(r.model for r in residues):
+            if other != model:
+                call(find_pairs, s, other)
     st, val = call(find_pairs, s, model)
     if st != "ok":
         return ("err", val, [])
@@ -159,6 +165,15 @@ def build_inputs(ctx, res):
                     sh = list(rs)
                     rng.shuffle(sh)
                     inputs.append(("shuffled-residues:%s" % name, sh, m))
+                if small:
+                    # one Structure3D object holding two models (the second a jittered copy), each requested in turn
+                    import dataclasses
+                    from rnapolis.tertiary import Residue3D
+                    second = [Residue3D(r.label, r.auth, m + 1, r.one_letter_name,
+                                        tuple(dataclasses.replace(a, model=m + 1) for a in r.atoms)) for r in G.jittered(rng, rs, 0.4)]
+                    both = list(rs) + second
+                    inputs.append(("two-models-one-object:%s" % name, both, m))
+                    inputs.append(("two-models-one-object:%s" % name, both, m + 1))
                 if big:
                     inputs.append(("jitter0.05:%s" % name, G.jittered(rng, nts, 0.05), m))
                 elif small or not ctx.quick:
